@@ -1,5 +1,7 @@
 import Utv.GenEq.Support
 import Utv.Gen.Field
+import Utv.Gen.JsonTables
+import Utv.Gen.CodecTables
 import Utv.Model.C13
 /-!
 C13 — T1 obligations: the field predicates the JSON-schema generator's model relies on (`Model/C13.lean`:
@@ -116,5 +118,19 @@ theorem C13_gen_get_default (W : World Unit) (f : FieldMeta) (o : Opts) :
   obtain ⟨_, _, _, required, hasDefault, deferDefault, noInput, noOutput, mode, final, _, _, _, _, _⟩ := f
   obtain ⟨omode, _, ir, nd, dd⟩ := o
   cases hasDefault <;> cases deferDefault <;> cases nd <;> cases dd <;> field_simp
+
+/-! ### the tables of `constant.py` (and `DEFAULT_PRIMITIVE`, `MAX_SAFE_NUMBER`) the model holds copies of -/
+
+theorem C13_gen_tables :
+    PRIMITIVES = JsonTables.PRIMITIVES ∧
+    PRIMITIVE_MAP = JsonTables.PRIMITIVE_MAP ∧
+    FORMAT_MAP = JsonTables.FORMAT_MAP ∧
+    OPERATOR_NAMES = JsonTables.OPERATOR_NAMES ∧
+    DEFAULT_CONSTRAINTS_MAP = JsonTables.DEFAULT_CONSTRAINTS_MAP ∧
+    TYPE_CONSTRAINTS_MAP = JsonTables.TYPE_CONSTRAINTS_MAP ∧
+    FORMAT_PATTERNS = JsonTables.FORMAT_PATTERNS ∧
+    DEFAULT_PRIMITIVE = JsonTables.DEFAULT_PRIMITIVE ∧
+    MAX_SAFE = CodecTables.MAX_SAFE_NUMBER ∧ -MAX_SAFE = CodecTables.MIN_SAFE_NUMBER := by
+  refine ⟨?_, ?_, ?_, ?_, ?_, ?_, ?_, ?_, ?_, ?_⟩ <;> decide
 
 end Utv.GenEq.C13
